@@ -118,6 +118,29 @@ func genTimestamps(r *rng, n int) CaseSet {
 			}
 			w.define(defn{local: 3, arch: byte(r.intn(2)), global: uint16(lsel.msg), fields: fs})
 		}
+		// a message type without a timestamp field (or an unknown one) on a compressed-capable local type:
+		// its compressed headers advance the running reference although nothing is stored in the message
+		haveNoTs := false
+		if !haveLocal {
+			var cands []int
+			for _, m := range knownMsgs() {
+				has := false
+				for _, f := range m.Fields {
+					if f[1] == 253 {
+						has = true
+					}
+				}
+				if !has && m.Num != 0 {
+					cands = append(cands, m.Num)
+				}
+			}
+			g := 65000 + r.intn(200) // unknown global message
+			if len(cands) > 0 && r.chance(60) {
+				g = cands[r.intn(len(cands))]
+			}
+			w.define(defn{local: 3, arch: byte(r.intn(2)), global: uint16(g), fields: []fdef{{250, 1, 2}}})
+			haveNoTs = true
+		}
 		steps := 3 + r.intn(40)
 		if r.chance(4) {
 			steps = 300
@@ -166,6 +189,9 @@ func genTimestamps(r *rng, n int) CaseSet {
 				l := byte(2)
 				if r.chance(10) {
 					l = 1
+				}
+				if haveNoTs && r.chance(35) {
+					l = 3
 				}
 				w.cdata(l, byte(r.intn(32)), w.payload(l, func(f fdef, a byte) []byte { return r.bytes(int(f.size)) }))
 			}
